@@ -338,6 +338,14 @@ class VF:
         self.frame = saved
         return ret
 
+    def fn_exit_list(self):
+        """exit list of the innermost FUNCTION (labelled blocks keep their own lists on the same stack, tagged with their label)"""
+        tags = getattr(self, 'exit_tags', {})
+        for lst in reversed(self.fn_exits):
+            if id(lst) not in tags:
+                return lst
+        return self.fn_exits[-1]
+
     def finish_fn(self, fallthrough):
         exits = self.fn_exits.pop()
         if self.dead:
@@ -853,6 +861,24 @@ class VF:
 
     # ---- statements / blocks
     def ev_Block(self, n, start=0):
+        if n.get('break_target') and start == 0 and not n.get('_in_scope'):
+            # a labelled block `'a: { .. break 'a value .. tail }`: leaving it early is like returning from an inlined function
+            if not hasattr(self, 'exit_tags'):
+                self.exit_tags = {}
+            lst = []
+            self.fn_exits.append(lst)
+            self.exit_tags[id(lst)] = n.get('label')
+            n2 = dict(n)
+            n2['_in_scope'] = True
+            v = self.ev_Block(n2)
+            tags = self.exit_tags
+            if not lst:
+                self.fn_exits.pop()
+                tags.pop(id(lst), None)
+                return v
+            r = self.finish_fn(v)
+            tags.pop(id(lst), None)
+            return r
         stmts = n['stmts']
         for idx in range(start, len(stmts)):
             s = stmts[idx]
@@ -1029,7 +1055,7 @@ class VF:
         # record an early error return (state = current store)
         if self.fn_exits:
             # (what `return Err(e)` in the Err arm of a match returns; the From conversion of the error is an alias here)
-            self.fn_exits[-1].append((T.land(*(self.pc + [errc])), T.app('Err', T.app('payload:Err', t)), dict(self.store)))
+            self.fn_exit_list().append((T.land(*(self.pc + [errc])), T.app('Err', T.app('payload:Err', t)), dict(self.store)))
         if self.loop_exits:
             self.loop_exits[-1].append(('return', None, T.land(*(self.pc_since_loop() + [errc])), None))
         return val
@@ -1045,15 +1071,29 @@ class VF:
         if self.dead:
             return T.sym('dead')
         if self.fn_exits:
-            self.fn_exits[-1].append((T.land(*self.pc), v, dict(self.store)))
+            self.fn_exit_list().append((T.land(*self.pc), v, dict(self.store)))
         if self.loop_exits:
             self.loop_exits[-1].append(('return', None, T.land(*self.pc_since_loop()), None))
         self.dead = True
         return T.sym('dead')
 
     def ev_Break(self, n):
+        tags = getattr(self, 'exit_tags', {})
+        blk = [lst for lst in self.fn_exits if tags.get(id(lst)) is not None and tags.get(id(lst)) == n.get('label')]
+        if blk:
+            # break out of a labelled block (possibly from inside loops in it): an early exit of that block with a value
+            bv = self.ev(n['value']) if n.get('value') is not None else T.UNIT
+            if self.dead:
+                return T.sym('dead')
+            blk[-1].append((T.land(*self.pc), bv, dict(self.store)))
+            if self.loop_exits:
+                self.loop_exits[-1].append(('return', None, T.land(*self.pc_since_loop()), None))
+            self.dead = True
+            return T.sym('dead')
         if n.get('value') is not None:
-            self.ev(n['value'])
+            bv = self.ev(n['value'])
+            if getattr(self, 'break_values', None):
+                self.break_values[-1].append(bv)
         if self.loop_exits:
             self.loop_exits[-1].append(('break', n.get('label'), T.land(*self.pc_since_loop()), dict(self.store)))
         self.dead = True
@@ -1184,6 +1224,18 @@ class VF:
                     st[k] = self.read(Place(*k))
                 self.store = end_store
             ls.exit_states.append(st)
+        # the iteration-end values describe an iteration that reached its end: every test that would have left the loop was false on
+        # that path (a helper that reports "stop" after leaving its state untouched, `if !acc.push(x) { break }`, merges the two
+        # states under the very condition of the break)
+        leave = {}
+        for kind, label, cond in ls.exits:
+            if kind in ('break', 'return') and isinstance(cond, T.Tm) and cond is not T.TRUE and cond[0] not in ('and',):
+                leave[cond] = T.FALSE
+                leave[T.lnot(cond)] = T.TRUE
+        if leave and not fall_dead:
+            for k in ls.lh:
+                if isinstance(ls.next.get(k), T.Tm):
+                    ls.next[k] = T.subst(ls.next[k], leave)
         # a `continue` just ends the iteration early: fold its state into the iteration-end values and drop the exit
         # (next := ite(cond_continue, state at the continue, fall-through state))
         keep_e, keep_s = [], []
@@ -1235,9 +1287,34 @@ class VF:
 
     def ev_Loop(self, n):
         ls = self.new_loop('loop', n)
-        self.run_loop_body(ls, lambda: self.ev(n['body']))
+        if not hasattr(self, 'break_values'):
+            self.break_values = []
+        self.break_values.append([])
+
+        def body():
+            del self.break_values[-1][:]          # keep the values of the last (summarising) pass only
+            return self.ev(n['body'])
+        self.run_loop_body(ls, body)
+        bvs = self.break_values.pop()
+        lhs0 = dict(ls.lh)
+        exit_at_head = len(ls.exits) == 1 and ls.exit_states and all(v is lhs0.get(k) for k, v in (ls.exit_states[0] or {}).items() if k in lhs0 and isinstance(v, T.Tm))
         if not self.disc_mode:
             self.counted_while(ls)
+        # `loop { .. break value .. }`: the value of the loop expression
+        if len(bvs) == 1:
+            v = bvs[0]
+            if isinstance(v, Ref):
+                return v                    # a reference to a place: read after the loop, it sees the loop's exit state
+            if isinstance(v, T.Tm) and exit_at_head:
+                m = {lhs0[k]: ls.lx[k] for k in lhs0 if isinstance(ls.lx.get(k), T.Tm)}
+                if getattr(ls, 'counter_key', None) is not None and ls.var is not None and isinstance(ls.n, T.Tm):
+                    pass
+                return T.subst(v, m) if m else v
+            if isinstance(v, T.Tm):
+                return T.sym('loopval%d' % ls.uid)
+            return v
+        if bvs:
+            return T.sym('loopval%d' % ls.uid)
         return T.UNIT
 
     def counted_while(self, ls):
@@ -1275,7 +1352,10 @@ class VF:
             cont = T.subst(T.cmp('lt', lh, N), m)       # holds on every iteration of the counted loop: not a condition of the body
             for e in ls.events:
                 e.args = [T.subst(a, m) if isinstance(a, T.Tm) else a for a in e.args]
+                if isinstance(getattr(e, 'res', None), T.Tm):
+                    e.res = T.subst(e.res, m)
                 e.pc = tuple(c2 for c2 in (T.subst(c, m) for c in e.pc) if c2 is not cont)
+            self.discipline[:] = [(d[0], T.subst(d[1], m) if isinstance(d[1], T.Tm) else d[1]) + tuple(d[2:]) for d in self.discipline]
             ls.kind, ls.var, ls.n, ls.elem, ls.seq_desc = 'for', it, T.sub(N, c0), T.add(c0, it), 'range'
             ls.counter_key = k
             ls.exits, ls.exit_states = [], []
@@ -1550,6 +1630,13 @@ class VF:
             target = fn['did']
         elif fn.get('resolved_local'):
             target = fn['resolved_did']
+        elif fn.get('local') and fn.get('container') == 'trait':
+            # a provided method of a PRIVATE crate trait that no impl overrides (an extension trait with a blanket impl): its one body
+            tb = self.facts.body(fn['did'])
+            if tb is not None and tb.get('thir') is not None and 'Restricted' in str(tb.get('vis', '')):
+                tr = strip_generics(tb.get('trait') or '')
+                if not any(b2.get('container') == 'trait_impl' and b2.get('name') == tb.get('name') and strip_generics(b2.get('trait') or '') == tr for b2 in self.facts.bodies):
+                    target = fn['did']
         if target is not None and self.inline:
             body = self.facts.body(target)
             if body is not None and body.get('thir') is not None:
@@ -1660,6 +1747,14 @@ def variant_test(variant, t):
     """`t` matches `variant`: bounds test for v.get(i), otherwise an uninterpreted is:<variant>(t)"""
     if T.is_app(t, 'opt') and variant in ('Some', 'None'):
         return t[2][0] if variant == 'Some' else T.lnot(t[2][0])
+    # a value whose constructor is known decides the test; a choice between such values distributes it
+    # (`match Decision::from(c) { Accept => A, Reject => B }` with from(c) = if c { Accept } else { Reject } is `if c { A } else { B }`)
+    if isinstance(t, T.Tm) and t[0] == 'ite':
+        a, b = variant_test(variant, t[2]), variant_test(variant, t[3])
+        if (a is T.TRUE or a is T.FALSE) and (b is T.TRUE or b is T.FALSE):
+            return T.ite(t[1], a, b)
+    if T.is_app(t) and t[1].startswith('adt:') and '::' in t[1]:
+        return T.TRUE if t[1].rsplit('::', 1)[1] == variant else T.FALSE
     # two-variant std enums: one test and its negation, so that `match r { Ok(v) => A, Err(e) => B }`, `if let Err(e) = r { B } else { A }`
     # and `r?` put the same condition on the same path
     if variant == 'Ok':
